@@ -23,6 +23,7 @@ SLOTS = [
     {"ann": "Union[int, str]", "vals": ["1", "'s'"]},
     {"ann": "Own.Inner", "vals": ["Own.Inner()"]},
     {"ann": "Type[A]", "vals": ["A", "B"]},
+    {"ann": "PkgLevel", "vals": ["PkgLevel()"]},
 ]
 
 HEADER = '''from collections import defaultdict
@@ -31,6 +32,7 @@ from vf.fixtures.hier import A, B, C, D, M, Outer, MyList, MyDict, NT, func, lam
 from vf.fixtures.hier import X1, X2, X3, X4, X5, X6, R1, R2, E1, E2, E3, E4, E5, E6
 from vf.fixtures.hier import TimeoutError, Warning, KeyError_  # noqa: A004 - user classes named like builtins
 from vf.fixtures.helpers import pick
+from vf.fixtures import PkgLevel
 
 NoneType = type(None)
 UserId = NewType("UserId", int)
